@@ -350,10 +350,11 @@ def registry_sx(ctx):
             raise AnalysisError(f"{cname}: _default_idx does not evaluate to index names")
         if len(set(didx)) != len(didx):
             raise AnalysisError(f"{cname}: repeated default index")
-        build = m.functions.get(f"{cname}._build_expanded_itmd")
-        bt = m.functions.get(f"{cname}._build_tensor")
+        build = ev.sx.find_method(f"{MOD}:{cname}", "_build_expanded_itmd")  # own or inherited
+        bt = ev.sx.find_method(f"{MOD}:{cname}", "_build_tensor")
         if build is None or bt is None:
             raise AnalysisError(f"{cname}: _build_expanded_itmd/_build_tensor missing")
+        build, bt = build[0], bt[0]
         me = _itmd_obj(cname, "self", didx, order, itype)
         o = ev.run(bt, dict(self=me, indices=didx), f"{cname}._build_tensor")
         t = o.value
